@@ -70,6 +70,28 @@ parsed text (printing erases the flag: `parse_print`; influxql's parser has no T
 theorem clone_finds_the_spliced_literals (user : Option Cond) (gb : Option (Int × Int)) (ag : Bool) (q : Query)
     (hq : Reach user gb ag q) (hu : userNoTL user = true) : q.clone = some q := reach_clone hq hu
 
+/-- Clone NEVER adopts a literal of the user's condition — even for trees no parser produces (user atoms that
+are in-memory TimeLiterals): whenever it succeeds, `startTL`/`stopTL` are the two spliced literals; with such a
+user atom it fails instead (multiple start/stop conditions). -/
+theorem clone_never_adopts_user_literal (user : Option Cond) (s e : Int) (q' : Query)
+    (h : ({ cond := splice user s e, startIdx := userAtoms user, stopIdx := userAtoms user + 1 } : Query).clone = some q') :
+    q'.startIdx = userAtoms user ∧ q'.stopIdx = userAtoms user + 1 := by
+  simp only [Query.clone, Query.cloneWith] at h
+  split at h
+  · rename_i i j hs hp he
+    simp at h; subst h
+    simp only
+    cases user with
+    | none =>
+      simp only [walk, splice, Cond.atoms, geTL, ltTL, List.singleton_append] at hs hp he
+      exact walk_tail _ 0 s e i j hs hp he
+    | some c =>
+      simp only [walk, splice, Cond.atoms, wrapUser_atoms, geTL, ltTL, List.singleton_append] at hs hp he
+      rw [walkFrom_append] at hs hp he
+      have := walk_tail _ _ s e i j hs hp he
+      simpa [userAtoms, atoms_length] using this
+  · simp at h
+
 /-- Setting a range on ANY reachable state (fresh, after any live ticks, or a clone) issues exactly the text
 that depends on the configuration and the range only. -/
 theorem issued_text_depends_on_range_only (user : Option Cond) (gb : Option (Int × Int)) (ag : Bool) (q : Query)
@@ -273,13 +295,6 @@ a literal that occurs) decides `RangeSpec`: between two neighbouring literals no
 proved; the driver's verdicts rely on it only to JUDGE observed texts, the theorems above do not use it. -/
 def rangeHolds_decides_RangeSpec_stmt : Prop :=
   ∀ (user : Option Cond) (issued : Cond) (s e : Int), rangeHolds user issued s e = true ↔ RangeSpec user issued s e
-
-/-- Clone never adopts a literal of the user's condition, even for trees no parser produces (user atoms that
-are in-memory TimeLiterals): it then fails instead. Proved above only under `userNoTL`. -/
-def clone_never_adopts_user_literal_stmt : Prop :=
-  ∀ (user : Option Cond) (s e : Int) (q' : Query),
-    ({ cond := splice user s e, startIdx := userAtoms user, stopIdx := userAtoms user + 1 } : Query).clone = some q' →
-    q'.startIdx = userAtoms user ∧ q'.stopIdx = userAtoms user + 1
 
 /-! ### non-vacuity: the hypotheses are met by concrete, non-trivial instances -/
 
